@@ -51,6 +51,9 @@ type Case struct {
 	// messages are gzip-compressed), "1-nohdr" = compressed messages with
 	// flag 1 although no encoding was negotiated.
 	Flags string `json:"flags,omitempty"`
+	// AcceptGzip: the HTTP request carries Accept-Encoding: gzip (replies may
+	// be compressed by the server; the client inflates them).
+	AcceptGzip bool `json:"accept_gzip,omitempty"`
 	// Msg selects the request message type: "" = vf.Chunk, "req" = vf.Req
 	// (methods EchoR / CSR; payloads with many small repeated elements).
 	Msg string `json:"msg,omitempty"`
@@ -121,6 +124,9 @@ func (c *Case) lane() string {
 		s += "/mixed-flags"
 	case "1-nohdr":
 		s += "/flag1-no-encoding"
+	}
+	if c.AcceptGzip {
+		s += "/accept-gzip"
 	}
 	return s
 }
@@ -311,6 +317,35 @@ func replyFor(codec string, n int, p padder) ([]byte, bool) {
 			// {"text":"<pad>"}
 			b := protowire.AppendTag(nil, 4, protowire.BytesType)
 			return protowire.AppendString(b, p.pad(n-11)), true
+		}
+	}
+	return nil, false
+}
+
+// replyForRandom is replyFor with content that does not compress: random
+// bytes in the data field (protobuf, HttpBody), random characters in the text
+// field (JSON; exact sizes need a text field, base64 comes in steps of four).
+func replyForRandom(codec string, n int, rng *rand.Rand) ([]byte, bool) {
+	p := padder{rng, false}
+	switch codec {
+	case "httpbody", "json":
+		return replyFor(codec, n, p)
+	case "proto":
+		for _, extra := range []int{0, 2, 3} {
+			k, ok := fitString(n - extra)
+			if !ok {
+				continue
+			}
+			var b []byte
+			switch extra {
+			case 2:
+				b = append(b, 0x10, 0x01)
+			case 3:
+				b = append(b, 0x10, 0x80, 0x01)
+			}
+			b = protowire.AppendTag(b, 3, protowire.BytesType) // data
+			b = protowire.AppendBytes(b, p.bytes(k))
+			return b, len(b) == n
 		}
 	}
 	return nil, false
